@@ -181,7 +181,7 @@ POP_DRIVER = r'''
 #include "time_integration.hpp"
 // One call of the real time_integration_scheme::update_nodes_positions on a small population (three closed cells of different sizes,
 // deterministic pseudo-random forces / momenta, a few mutual couplings in the form of the compiled contact model), compared node by
-// node with the documented law. argv[1] = number of consecutive steps.
+// node with the documented law. argv[1] = number of consecutive steps, argv[2] = damping coefficient (default 0.75).
 static double rnd(unsigned k){ return std::sin(12.9898 * (k + 1)) * 43758.5453 - std::floor(std::sin(12.9898 * (k + 1)) * 43758.5453) - 0.5; }
 static void octa(double s, double ox, double oy, double oz, std::vector<double>& pos, std::vector<unsigned>& faces){
   const double v[6][3] = {{1,0,0},{-1,0,0},{0,1,0},{0,-1,0},{0,0,1},{0,0,-1}};
@@ -201,13 +201,13 @@ int main(int argc, char** argv){
     auto cp = std::make_shared<epithelial_cell>(pos, faces, c + 4, ct);      // persistent ids 4,5,6 differ from the positions 0,1,2
     cp->initialize_cell_properties(true); cp->set_local_id(c); cells.push_back(cp);
   }
-  global_simulation_parameters sp; sp.time_step_ = 0.015625; sp.damping_coefficient_ = 0.75;
+  global_simulation_parameters sp; sp.time_step_ = 0.015625; sp.damping_coefficient_ = argc > 2 ? atof(argv[2]) : 0.75;      // argv[2]: damping (a stiff value makes damping*dt exceed the node mass)
   time_integration_scheme ti(sp, false);
   const double dt = sp.time_step_, damp = sp.damping_coefficient_;
   // couplings (mutual): (cell 0 node 1) <-> (cell 1 node 0); (cell 2 node 3) <-> (cell 1 node 4); contact model 2 additionally a triple:
   // (cell 2 node 5) <-> (cell 0 node 2) and (cell 2 node 5) <-> (cell 1 node 2)
   struct cpl { unsigned ca, na, cb, nb; };
-  std::vector<cpl> cps = {{0,1,1,0},{2,3,1,4}};
+  std::vector<cpl> cps = {{0,1,1,0},{2,3,1,4},{2,0,0,5}};      // the last cell owns pairs with two different neighbours of different node mass
   #if CONTACT_MODEL_INDEX == 2
     cps.push_back({2,5,0,2}); cps.push_back({2,5,1,2});
   #endif
@@ -240,9 +240,9 @@ int main(int argc, char** argv){
     for(unsigned c = 0; c < 3; c++) seen[c].assign(cells[c]->node_lst_.size(), false);
     #if CONTACT_MODEL_INDEX != 0
       #if CONTACT_MODEL_INDEX == 2
-        groups.push_back({{2,5},{0,2},{1,2}}); groups.push_back({{0,1},{1,0}}); groups.push_back({{2,3},{1,4}});
+        groups.push_back({{2,5},{0,2},{1,2}}); groups.push_back({{0,1},{1,0}}); groups.push_back({{2,3},{1,4}}); groups.push_back({{2,0},{0,5}});
       #else
-        groups.push_back({{0,1},{1,0}}); groups.push_back({{2,3},{1,4}});
+        groups.push_back({{0,1},{1,0}}); groups.push_back({{2,3},{1,4}}); groups.push_back({{2,0},{0,5}});
       #endif
       for(auto& g: groups) for(auto& m: g) seen[m.first][m.second] = true;
     #endif
@@ -287,9 +287,13 @@ def extra_checks(run):
     steps = '12' if run.tier == 'thorough' else '3'
     for c, d in POP_CASES:
         code, txt = native.run_driver(POP_DRIVER, [steps], defines={'SIMUCELL3D_VERIF_CONTACT_MODEL_INDEX': c, 'SIMUCELL3D_VERIF_DYNAMIC_MODEL_INDEX': d}, timeout=600)
+        if code == 0:      # second scenario: stiff damping (damping*dt larger than every node mass)
+            code, txt2 = native.run_driver(POP_DRIVER, [steps, '40'], defines={'SIMUCELL3D_VERIF_CONTACT_MODEL_INDEX': c, 'SIMUCELL3D_VERIF_DYNAMIC_MODEL_INDEX': d}, timeout=600)
+            txt = txt + txt2
         name = 'C03/bounded/integration-law-on-a-small-population[contact model %d, dynamic model %d]' % (c, d)
         rec = {'name': name, 'bound': ('three octahedral cells of different sizes (persistent ids 4,5,6 at positions 0,1,2), pseudo-random forces and momenta, two mutual pairs '
-                                       '(contact model 2: plus one group of three), %s consecutive calls of the real update_nodes_positions; IEEE doubles, relative tolerance 1e-9') % steps,
+                                       'one of them owned by a cell with two different neighbours (contact model 2: plus one group of three), %s consecutive calls of the real update_nodes_positions, '
+                                       'once with damping 0.75 and once with the stiff damping 40; IEEE doubles, relative tolerance 1e-9') % steps,
                'result': 'every node follows the law' if code == 0 else ('deviation from the law' if code == 1 else 'driver failed (%d)' % code), 'output': txt[-600:]}
         if code == 1:
             rp = os.path.join(os.path.dirname(os.path.dirname(os.path.abspath(__file__))), 'replays', 'C03-bounded-population-%d-%d.json' % (c, d))
@@ -299,6 +303,26 @@ def extra_checks(run):
         out.append(rec)
     return out
 
+
+
+_POP_CACHE = {}
+
+
+def replay(ob, ins, run):
+    """a refuted obligation is replayed natively by the population scenario in the obligation's own compile-time configuration: the real
+    update_nodes_positions on three cells with couplings, compared node by node with the law"""
+    import native, re
+    cfg = ob.info.get('config') or ''
+    m1 = re.search(r'CONTACT_MODEL_INDEX=(\d)', cfg); m2 = re.search(r'DYNAMIC_MODEL_INDEX=(\d)', cfg)
+    c = int(m1.group(1)) if m1 else 1; d = int(m2.group(1)) if m2 else 0
+    if (c, d) not in _POP_CACHE:
+        dfn = {'SIMUCELL3D_VERIF_CONTACT_MODEL_INDEX': c, 'SIMUCELL3D_VERIF_DYNAMIC_MODEL_INDEX': d}
+        r_ = native.run_driver(POP_DRIVER, ['6'], defines=dfn, timeout=600)
+        if r_[0] == 0: r_ = native.run_driver(POP_DRIVER, ['6', '40'], defines=dfn, timeout=600)      # stiff damping
+        _POP_CACHE[(c, d)] = r_
+    code, out = _POP_CACHE[(c, d)]
+    return {'confirmed': code == 1, 'exit': code, 'args': ['6'], 'defines': {'CONTACT_MODEL_INDEX': c, 'DYNAMIC_MODEL_INDEX': d}, 'output': out[-2500:],
+            'driver': 'specs/C03.py:POP_DRIVER (three octahedral cells, two mutual pairs, six steps)'}
 
 
 def replay_recorded(data):
